@@ -128,6 +128,86 @@ theorem bufferIndex_nat (ch c i : Nat) (hfit : ((ch * i + c : Nat) : Int) < 2^63
   have := C14.chan_index { ch := ch, blk := 0, off := 0, len := 0, cap := 0, kind := .i8, depth := 8 } c i hfit
   simpa [chanIndex] using this
 
+/-! ### per-channel lengths with a partially filled last frame -/
+
+theorem length_eq (b : Buf) (hch : 1 ≤ b.ch) :
+    b.length = if b.len % b.ch = 0 then b.len / b.ch else b.len / b.ch + 1 := by
+  unfold Buf.length channelLength
+  have hne : b.ch ≠ 0 := by omega
+  simp only [hne, if_false]
+  have h1 := Nat.div_add_mod b.len b.ch
+  have h2 := Nat.mod_lt b.len (by omega : 0 < b.ch)
+  split
+  · rename_i h0
+    apply Nat.div_eq_of_lt_le
+    · rw [Nat.mul_comm]; omega
+    · rw [Nat.add_mul, Nat.one_mul, Nat.mul_comm]; omega
+  · rename_i h0
+    apply Nat.div_eq_of_lt_le
+    · rw [Nat.add_mul, Nat.one_mul, Nat.mul_comm]; omega
+    · rw [Nat.add_mul, Nat.add_mul, Nat.one_mul, Nat.mul_comm]; omega
+
+/-- exactly the frames `i < chanLen c` of channel `c` lie inside the buffer -/
+theorem chanLen_iff (b : Buf) (hch : 1 ≤ b.ch) (c : Nat) (hc : c < b.ch) (i : Nat) :
+    i < b.chanLen c ↔ b.ch * i + c < b.len := by
+  unfold Buf.chanLen
+  rw [length_eq b hch]
+  have h1 := Nat.div_add_mod b.len b.ch
+  have h2 := Nat.mod_lt b.len (by omega : 0 < b.ch)
+  -- b.len = ch * q + r
+  generalize hq : b.len / b.ch = q at *
+  generalize hr : b.len % b.ch = r at *
+  constructor
+  · intro hi
+    have key : b.ch * i + b.ch ≤ b.ch * q ∨ (i = q ∧ c < r) := by
+      by_cases hr0 : r = 0
+      · simp [hr0] at hi
+        left
+        have : b.ch * (i + 1) ≤ b.ch * q := Nat.mul_le_mul_left _ (by omega)
+        rw [Nat.mul_add, Nat.mul_one] at this; exact this
+      · by_cases hcr : r ≤ c
+        · simp [hr0, hcr] at hi
+          left
+          have : b.ch * (i + 1) ≤ b.ch * q := Nat.mul_le_mul_left _ (by omega)
+          rw [Nat.mul_add, Nat.mul_one] at this; exact this
+        · simp [hr0, hcr] at hi
+          by_cases hiq : i = q
+          · right; exact ⟨hiq, by omega⟩
+          · left
+            have : b.ch * (i + 1) ≤ b.ch * q := Nat.mul_le_mul_left _ (by omega)
+            rw [Nat.mul_add, Nat.mul_one] at this; exact this
+    rcases key with k | ⟨k1, k2⟩
+    · omega
+    · subst k1; omega
+  · intro hp
+    -- ch * i + c < ch * q + r
+    have hiq : i ≤ q := by
+      apply Decidable.byContradiction
+      intro hc'
+      have : b.ch * (q + 1) ≤ b.ch * i := Nat.mul_le_mul_left _ (by omega)
+      rw [Nat.mul_add, Nat.mul_one] at this; omega
+    by_cases hr0 : r = 0
+    · simp [hr0]
+      apply Decidable.byContradiction
+      intro hc'
+      have : i = q := by omega
+      subst this; omega
+    · by_cases hcr : r ≤ c
+      · simp [hr0, hcr]
+        apply Decidable.byContradiction
+        intro hc'
+        have : i = q := by omega
+        subst this; omega
+      · simp [hr0, hcr]; omega
+
+theorem chanLen_aligned (b : Buf) (hal : b.len = b.ch * b.length) (c : Nat) : b.chanLen c = b.length := by
+  unfold Buf.chanLen
+  have : b.len % b.ch = 0 := by rw [hal]; exact Nat.mul_mod_right _ _
+  simp [this]
+
+theorem chanLen_le (b : Buf) (c : Nat) : b.chanLen c ≤ b.length := by
+  unfold Buf.chanLen; split <;> omega
+
 /-- one channel of `WriteStriped`: frames `[i0, i0+n)` of channel `c` receive `wval`, nothing else changes -/
 theorem wsChan_spec (cv : Int → Option Int) (dst : Buf) (c : Nat) (col : List Int) (n i0 : Nat) (h : Heap)
     (hw : dst.wf h) (hin : ∀ i, i0 ≤ i → i < i0 + n → dst.ch * i + c < dst.len)
@@ -172,27 +252,32 @@ theorem wsChan_spec (cv : Int → Option Int) (dst : Buf) (c : Nat) (col : List 
       rw [cell_store_of_room h dst.blk _ blk j y (dst.off + dst.cap) hw.2 (by have := hw.1; omega)]
       simp [this]
 
-/-- all channels of `WriteStriped` -/
+/-- all channels of `WriteStriped`: of the frames `i < written` exactly those whose position
+`channels·i + c` lies inside the buffer are written (the last frame may be filled partially) -/
 theorem wsChans_spec (cv : Int → Option Int) (dst : Buf) (written : Nat) (cols : List (List Int)) (c0 : Nat) (h : Heap)
     (hw : dst.wf h) (hcs : c0 + cols.length ≤ dst.ch)
-    (hin : dst.ch * written ≤ dst.len) (hsmall : (dst.len : Int) < 2^63)
+    (hch1 : 1 ≤ dst.ch) (hsmall : (dst.len : Int) < 2^63)
     (hdef : ∀ k i, k < cols.length → i < written → (wval cv (cols.getD k []) i).isSome) :
     ∃ h', wsChans cv dst written c0 cols h = .ok h' () ∧ Ext h h' ∧
-      (∀ k i, k < cols.length → i < written →
+      (∀ k i, k < cols.length → i < written → dst.ch * i + (c0 + k) < dst.len →
         cell h' dst.blk (dst.off + (dst.ch * i + (c0 + k))) = wval cv (cols.getD k []) i) ∧
-      (∀ blk j, (∀ k i, k < cols.length → i < written → ¬ (blk = dst.blk ∧ j = dst.off + (dst.ch * i + (c0 + k)))) →
+      (∀ blk j, (∀ k i, k < cols.length → i < written → dst.ch * i + (c0 + k) < dst.len →
+          ¬ (blk = dst.blk ∧ j = dst.off + (dst.ch * i + (c0 + k)))) →
         cell h' blk j = cell h blk j) := by
   induction cols generalizing c0 h with
   | nil => exact ⟨h, rfl, Ext.refl h, fun k i hk => by simp at hk, fun _ _ _ => rfl⟩
   | cons col cols ih =>
     simp only [List.length_cons] at hcs
     have hc0 : c0 < dst.ch := by omega
-    have hinc : ∀ i, 0 ≤ i → i < 0 + written → dst.ch * i + c0 < dst.len := by
+    -- the frames of channel c0 that are written
+    have hn : ∀ i, i < min written (dst.chanLen c0) ↔ (i < written ∧ dst.ch * i + c0 < dst.len) := by
+      intro i
+      rw [Nat.lt_min, chanLen_iff dst hch1 c0 hc0 i]
+    have hinc : ∀ i, 0 ≤ i → i < 0 + min written (dst.chanLen c0) → dst.ch * i + c0 < dst.len := by
       intro i _ hi
-      have : dst.ch * (i + 1) ≤ dst.ch * written := Nat.mul_le_mul_left _ (by omega)
-      rw [Nat.mul_add, Nat.mul_one] at this; omega
-    obtain ⟨h1, e1, ex1, a1, b1⟩ := wsChan_spec cv dst c0 col written 0 h hw hinc hsmall hc0
-      (fun i _ hi => by simpa using hdef 0 i (by simp) (by omega))
+      exact ((hn i).mp (by omega)).2
+    obtain ⟨h1, e1, ex1, a1, b1⟩ := wsChan_spec cv dst c0 col (min written (dst.chanLen c0)) 0 h hw hinc hsmall hc0
+      (fun i _ hi => by simpa using hdef 0 i (by simp) ((hn i).mp (by omega)).1)
     have hw1 : dst.wf h1 := dst.wf_ext ex1 hw
     obtain ⟨h2, e2, ex2, a2, b2⟩ := ih (c0 + 1) h1 hw1 (by omega)
       (fun k i hk hi => by simpa using hdef (k + 1) i (by simp; omega) hi)
@@ -201,34 +286,65 @@ theorem wsChans_spec (cv : Int → Option Int) (dst : Buf) (written : Nat) (cols
       rw [List.range_eq_range', e1]
       simp only [Res.bind]
       exact e2
-    · intro k i hk hi
+    · intro k i hk hi hpos
       cases k with
       | zero =>
         simp only [Nat.add_zero, List.getD_cons_zero]
+        simp only [Nat.add_zero] at hpos
         rw [b2 dst.blk _ ?_]
-        · exact a1 i (Nat.zero_le _) (by omega)
-        · intro k' i' hk' hi' ⟨_, hj⟩
+        · exact a1 i (Nat.zero_le _) (by have := (hn i).mpr ⟨hi, hpos⟩; omega)
+        · intro k' i' hk' hi' _ ⟨_, hj⟩
           have : dst.ch * i + c0 = dst.ch * i' + (c0 + 1 + k') := by omega
           have := (C14.chan_positions_injective dst.ch c0 i (c0 + 1 + k') i' hc0 (by omega) this).1
           omega
       | succ k =>
         simp only [List.length_cons] at hk
-        have := a2 k i (by omega) hi
+        have := a2 k i (by omega) hi (by rw [show c0 + 1 + k = c0 + (k + 1) by omega]; exact hpos)
         simp only [List.getD_cons_succ]
         rw [show c0 + (k + 1) = c0 + 1 + k by omega]
         exact this
     · intro blk j hno
-      rw [b2 blk j (fun k i hk hi => by
-        have := hno (k + 1) i (by simp; omega) hi
+      rw [b2 blk j (fun k i hk hi hp => by
+        have := hno (k + 1) i (by simp; omega) hi (by rw [show c0 + (k + 1) = c0 + 1 + k by omega]; exact hp)
         rw [show c0 + (k + 1) = c0 + 1 + k by omega] at this; exact this)]
-      exact b1 blk j (fun i _ hi => by simpa using hno 0 i (by simp) (by omega))
+      exact b1 blk j (fun i _ hi => by
+        have hh := (hn i).mp (by omega)
+        simpa using hno 0 i (by simp) hh.1 (by simpa using hh.2))
 
-/-- **WriteStriped layout**, for a frame-aligned view: with `w = min(longest input, Length)`, sample `i`
-of channel `c` is stored at interleaved position `channels·i + c` for `i < |src[c]|`, positions of
-shorter channels up to `w` are zero-filled, every other cell of every block (frames `≥ w` included) is
-unchanged, and `w` is returned. -/
+/-- **WriteStriped layout**: with `w = min(longest input, Length)` (`Length` counts a partly filled
+last frame), sample `i` of channel `c` is stored at interleaved position `channels·i + c` for
+`i < |src[c]|`, positions of shorter channels up to `w` are zero-filled - in both cases only positions
+inside the buffer, so a partly filled last frame is covered as far as it exists -, every other cell of
+every block (frames `≥ w` included) is unchanged, nothing panics, and `w` is returned. -/
 theorem writeStriped_layout (cv : Int → Option Int) (h : Heap) (src : List (List Int)) (dst : Buf)
-    (hw : dst.wf h) (hch : dst.ch = src.length) (hal : dst.len = dst.ch * dst.length)
+    (hw : dst.wf h) (hch : dst.ch = src.length) (hch1 : 1 ≤ dst.ch)
+    (hsmall : (dst.len : Int) < 2^63)
+    (hdef : ∀ c i, c < src.length → i < min (src.foldl (fun m col => max m col.length) 0) dst.length →
+      (wval cv (src.getD c []) i).isSome) :
+    let w := min (src.foldl (fun m col => max m col.length) 0) dst.length
+    ∃ h', writeStriped cv h src dst = .ok h' w ∧ Ext h h' ∧
+      (∀ c i, c < dst.ch → i < w → dst.ch * i + c < dst.len →
+        cell h' dst.blk (dst.off + (dst.ch * i + c)) = wval cv (src.getD c []) i) ∧
+      (∀ blk j, (∀ c i, c < dst.ch → i < w → dst.ch * i + c < dst.len →
+          ¬ (blk = dst.blk ∧ j = dst.off + (dst.ch * i + c))) →
+        cell h' blk j = cell h blk j) := by
+  intro w
+  obtain ⟨h', e, ex, a, b⟩ := wsChans_spec cv dst w src 0 h hw (by omega) hch1 hsmall hdef
+  refine ⟨h', ?_, ex, ?_, ?_⟩
+  · unfold writeStriped
+    have : ¬ dst.ch ≠ src.length := by simp [hch]
+    simp only [this, if_false]
+    show (wsChans cv dst w 0 src h).bind _ = _
+    rw [e]; rfl
+  · intro c i hc hi hp
+    have := a c i (by omega) hi (by simpa using hp)
+    simpa using this
+  · intro blk j hno
+    exact b blk j (fun k i hk hi hp => by simpa using hno k i (by omega) hi (by simpa using hp))
+
+/-- the frame-aligned case: every frame `i < w` of every channel is written -/
+theorem writeStriped_layout_aligned (cv : Int → Option Int) (h : Heap) (src : List (List Int)) (dst : Buf)
+    (hw : dst.wf h) (hch : dst.ch = src.length) (hch1 : 1 ≤ dst.ch) (hal : dst.len = dst.ch * dst.length)
     (hsmall : (dst.len : Int) < 2^63)
     (hdef : ∀ c i, c < src.length → i < min (src.foldl (fun m col => max m col.length) 0) dst.length →
       (wval cv (src.getD c []) i).isSome) :
@@ -238,37 +354,29 @@ theorem writeStriped_layout (cv : Int → Option Int) (h : Heap) (src : List (Li
       (∀ blk j, (∀ c i, c < dst.ch → i < w → ¬ (blk = dst.blk ∧ j = dst.off + (dst.ch * i + c))) →
         cell h' blk j = cell h blk j) := by
   intro w
-  have hwl : dst.ch * w ≤ dst.len := by
-    rw [hal]; exact Nat.mul_le_mul_left _ (Nat.min_le_right _ _)
-  obtain ⟨h', e, ex, a, b⟩ := wsChans_spec cv dst w src 0 h hw (by omega) hwl hsmall hdef
-  refine ⟨h', ?_, ex, ?_, ?_⟩
-  · unfold writeStriped
-    have : ¬ dst.ch ≠ src.length := by simp [hch]
-    simp only [this, if_false]
-    show (wsChans cv dst w 0 src h).bind _ = _
-    rw [e]; rfl
-  · intro c i hc hi
-    have := a c i (by omega) hi
-    simpa using this
-  · intro blk j hno
-    exact b blk j (fun k i hk hi => by simpa using hno k i (by omega) hi)
+  obtain ⟨h', e, ex, a, b⟩ := writeStriped_layout cv h src dst hw hch hch1 hsmall hdef
+  have hpos : ∀ c i, c < dst.ch → i < w → dst.ch * i + c < dst.len := by
+    intro c i hc hi
+    have hiL : i < dst.length := Nat.lt_of_lt_of_le hi (Nat.min_le_right _ _)
+    have : dst.ch * (i + 1) ≤ dst.ch * dst.length := Nat.mul_le_mul_left _ (by omega)
+    rw [Nat.mul_add, Nat.mul_one] at this; omega
+  refine ⟨h', e, ex, fun c i hc hi => a c i hc hi (hpos c i hc hi), fun blk j hno => b blk j (fun c i hc hi _ => hno c i hc hi)⟩
 
-/-- one channel of `ReadStriped`: the first `min(|dst[c]|, Length)` elements of the caller's slice for
+/-- one channel of `ReadStriped`: the first `min(|dst[c]|, samples of channel c in the buffer)` elements of the caller's slice for
 channel `c` receive the converted samples at positions `channels·i + c`; the rest is untouched -/
 theorem rsChan_spec (cv : Int → Option Int) (h : Heap) (src : Buf) (c : Nat) (col : List Int)
-    (hc : c < src.ch) (hal : src.len = src.ch * src.length) (hsmall : (src.len : Int) < 2^63)
+    (hc : c < src.ch) (hsmall : (src.len : Int) < 2^63)
     (ys : List Int)
-    (hys : (List.range (min col.length src.length)).mapM
+    (hys : (List.range (min col.length (src.chanLen c))).mapM
       (fun i => (cell h src.blk (src.off + (src.ch * i + c))).bind cv) = some ys) :
-    rsChan cv h src c col = some (some (ys ++ col.drop (min col.length src.length))) := by
+    rsChan cv h src c col = some (some (ys ++ col.drop (min col.length (src.chanLen c)))) := by
   unfold rsChan
   simp only
-  have hpos : ∀ i, i < min col.length src.length → src.ch * i + c < src.len := by
+  have hpos : ∀ i, i < min col.length (src.chanLen c) → src.ch * i + c < src.len := by
     intro i hi
-    have : src.ch * (i + 1) ≤ src.ch * src.length := Nat.mul_le_mul_left _ (by omega)
-    rw [Nat.mul_add, Nat.mul_one] at this; omega
+    exact (chanLen_iff src (by omega) c hc i).mp (Nat.lt_of_lt_of_le hi (Nat.min_le_right _ _))
   -- split the single mapM of the specification into the two mapM's of the code
-  have key : ∀ (l : List Nat) (ys : List Int), (∀ i ∈ l, i < min col.length src.length) →
+  have key : ∀ (l : List Nat) (ys : List Int), (∀ i ∈ l, i < min col.length (src.chanLen c)) →
       l.mapM (fun i => (cell h src.blk (src.off + (src.ch * i + c))).bind cv) = some ys →
       ∃ xs, l.mapM (fun (i : Nat) => src.sample h (bufferIndex src.ch (c : Int) (i : Int))) = some xs ∧
         xs.mapM cv = some ys := by
@@ -304,6 +412,17 @@ example :
      | _ => false) = true ∧
     (match readStriped some [[1, 4, 2, 0, 3, 0, 9, 9]] b [[7, 7], [7, 7, 7, 7]] with
      | .ok _ r => r == ([[1, 2], [4, 0, 0, 7]], 3)
+     | _ => false) = true := by decide
+
+/-- a partly filled last frame (2 channels, 5 samples): the striped forms cover it as far as it exists -/
+example :
+    let h : Heap := [[9, 9, 9, 9, 9, 7, 7, 7]]
+    let b : Buf := { ch := 2, blk := 0, off := 0, len := 5, cap := 8, kind := .i8, depth := 8 }
+    (match writeStriped some h [[1, 2, 3], [4, 5, 6]] b with
+     | .ok h' r => h' == [[1, 4, 2, 5, 3, 7, 7, 7]] && r == 3
+     | _ => false) = true ∧
+    (match readStriped some [[1, 4, 2, 5, 3, 7, 7, 7]] b [[0, 0, 0, 0], [0, 0, 0, 0]] with
+     | .ok _ r => r == ([[1, 2, 3, 0], [4, 5, 0, 0]], 3)
      | _ => false) = true := by decide
 
 end Sig.C01
